@@ -14,7 +14,8 @@ RULE = ("COMPLETE enumeration of configurations through the public API against t
         "015K, 025K, 29K9 so that the '25KET'/'29K9ET' substrings occur) x every combination of supported/refused "
         "optional blocks {battery, battery2, meter basic/extended/extended-2, MPPT, eco-mode-v2, peak shaving}; every "
         "DT tag x meter supported/refused.  Each run: read_device_info then three read_runtime_data with battery "
-        "present/absent patterns; the peer answers EXACT-length frames.  Two monitors: (1) for every id in a result "
+        "present/absent patterns (every second configuration with one whole request of the first poll lost incl. its "
+        "retransmissions); the peer answers EXACT-length frames.  Two monitors: (1) for every id in a result "
         "whose class has a documented width, its own registers [offset, offset+ceil(width/2)) must lie inside a "
         "window that was successfully fetched in that call (from the peer's request log); (2) ProtocolResponse.read "
         "is wrapped in the simulation child (no hook in /repo): any read returning fewer bytes than requested is "
@@ -42,13 +43,22 @@ def exhaustive(tier):
 
 
 def make_case(tier, seed, index):
-    return configs.make_case(index, seed)
+    case = configs.make_case(index, seed)
+    if index % 2 == 1 and not case["lossy"]:
+        # transient network failure of one whole request (incl. retries) of the first poll, e.g. of a fallback read:
+        # whatever state it leaves behind must not make later polls decode outside what they fetch
+        case["fail_request"] = (index // 2) % 6
+    return case
 
 
 def simplify(case):
     out = []
     if case.get("lossy"):
         out.append(dict(case, lossy=False))
+    if case.get("fail_request") is not None:
+        c = dict(case)
+        c.pop("fail_request")
+        out.append(c)
     return out
 
 
